@@ -4,6 +4,7 @@ import CifModel.Model.ParserStoreOps
 import CifModel.Props.C03
 import CifModel.Props.C04
 import CifModel.Lemmas.ParserStoreRun
+import CifModel.Lemmas.ParserStoreRunF
 /-
   Props/C03Store — the parser model and the store: which API calls a parse makes, and that the CIF the parser model returns is what
   those calls build (property C03 "the CIF is consistent afterwards" / C04 "interleaved with parsing").
@@ -344,6 +345,69 @@ theorem C03_store_inv_after_parse_partial (o : Opts) (pol : Policy) (units : Str
   refine ⟨hwok, s, hc, (hwok.good.live hl).db.inv, hwok.autocommit hl (ParserSim.busy_false _ hits 0), ?_⟩
   rw [habs]
   exact C03_consistent_after_fresh o pol units
+
+/-! ### the FULL composition: every parse, save frames included (group gX, Lemmas/ParserStoreSimF, ParserStoreRunF)
+
+  `ParserSimF` is the development above once more for states WITH save frames: `AState.tree` by recursion over the frame table,
+  `ContAt A path t` (a block, then frames, by normalised code), `tree_updG` — a change of the loops of the container with id `t`
+  is `updIn … path` on the tree, because `t` occurs ONCE in the tree (a frame has one parent, `parent < child`: `below_chain`,
+  `sibling_disjoint`, `root_disjoint`) —, `tree_addFrame`, `sim_mkFrame`, `rep_mkFrame`. -/
+
+/-- **C03_parser_store_refines** — `C03_parser_store_refines_full` PROVED: for EVERY option record, callback policy and input — save
+    frames at any depth, lenient creations, every recovery path, completed or aborted parses — the store calls the parse records,
+    translated into a `Store.Op` history (`storeOps`) and run through `Store.step` from the empty world, all return CIF_OK, and the
+    store then shows (`Store.abs`) EXACTLY the CIF the parser model returns. -/
+theorem C03_parser_store_refines : C03_parser_store_refines_full := by
+  intro o pol units ops hso
+  obtain ⟨_, hall, _, s, hc, _, habs⟩ := ParserSimF.parse_store_sim o pol units ops hso
+  refine ⟨hall, s, ?_, habs⟩
+  show (Store.run {} ops).1.cifs.getD 0 none = some s
+  rw [hc]; rfl
+
+/-- **C03_parse_is_store_history** — the calls of EVERY parse (into a new CIF) are an IN-CONTRACT history of the store API from the
+    empty world; hence the documented model with identities predicts every result and the final state (`C04_refines_from_start`), and
+    every theorem of C04 / C05 / C06 / C07 about in-contract histories applies to what the parser built. -/
+theorem C03_parse_is_store_history (o : Opts) (pol : Policy) (units : Str) (ops : List Store.Op)
+    (hso : storeOps o (storeTrace o pol [] units) = some ops) :
+    Store.inContractHist {} ops = true ∧
+      Store.specRun {} ops = some (Store.absW (Store.run {} ops).1, (Store.run {} ops).2) := by
+  obtain ⟨hin, _⟩ := ParserSimF.parse_store_sim o pol units ops hso
+  exact ⟨hin, C04_refines_from_start ops hin⟩
+
+/-- **C03_store_inv_after_parse** — after EVERY parse, also an aborted one, the world of the store model satisfies `WOk` (store
+    invariant `Inv` of the CIF, autocommit, iterator table tied), and the CIF it shows is consistent and rectangular. -/
+theorem C03_store_inv_after_parse (o : Opts) (pol : Policy) (units : Str) (ops : List Store.Op)
+    (hso : storeOps o (storeTrace o pol [] units) = some ops) :
+    Store.WOk (Store.run {} ops).1 ∧ ∃ s, (Store.run {} ops).1.cifs = [some s] ∧ Store.Inv s.db ∧ s.autocommit = true ∧
+      OkCif o (Store.abs s.db) ∧ RectCif (Store.abs s.db) := by
+  obtain ⟨_, _, hwok, s, hc, hits, habs⟩ := ParserSimF.parse_store_sim o pol units ops hso
+  have hl : (Store.run {} ops).1.liveC 0 = some s := by unfold Store.World.liveC; rw [hc]; rfl
+  refine ⟨hwok, s, hc, (hwok.good.live hl).db.inv, hwok.autocommit hl (ParserSimF.busy_false _ hits 0), ?_⟩
+  rw [habs]
+  exact C03_consistent_after_fresh o pol units
+
+/-- **C03_parser_store_refines_from_rep** — pre-existing targets, save frames included: from ANY world that represents a consistent,
+    rectangular initial target (`ParserSimF.Rep`), a parse whose trace has a translation w.r.t. the world's handle tables: the calls are
+    in contract, return CIF_OK, keep `WOk`, and the world then shows the CIF the parser model returns for that initial target. -/
+theorem C03_parser_store_refines_from_rep (o : Opts) (pol : Policy) (units : Str) (m : HMap) (w : Store.World) (s : Store.Store)
+    (last : Option SOp) (hr : ParserSimF.Rep o m w s last) (hok : OkCif o (Store.abs s.db)) (hrect : RectCif (Store.abs s.db))
+    (sops : List Store.Op) (hso : storeOpsFrom o m (storeTrace o pol (Store.abs s.db) units) = some sops) :
+    Store.inContractHist w sops = true ∧ (Store.run w sops).2.all (fun r => r.rc == some 0) = true ∧
+      Store.WOk (Store.run w sops).1 ∧
+      ∃ s', (Store.run w sops).1.cifs = [some s'] ∧ Store.abs s'.db = (parse o pol (Store.abs s.db) units).cif := by
+  rw [← Store.absS_tree] at hok hrect hso ⊢
+  exact ParserSimF.parse_store_sim_from o pol units m w s last hr ⟨hok, hrect⟩ sops hso
+
+set_option maxRecDepth 1000000 in
+/-- `C03_parser_store_refines` applies to a document with a save frame (kernel-evaluated: the trace has a translation) -/
+example : ∃ ops, storeOps C03.opts2 (storeTrace C03.opts2 acceptAll [] (a!"data_a _x 1 save_f _y 2 save_ _z 5")) = some ops ∧
+    (storeRun ops).2 = true ∧ ∃ s, (storeRun ops).1 = some s ∧
+      Store.abs s.db = (parse C03.opts2 acceptAll [] (a!"data_a _x 1 save_f _y 2 save_ _z 5")).cif := by
+  have h : (storeOps C03.opts2 (storeTrace C03.opts2 acceptAll [] (a!"data_a _x 1 save_f _y 2 save_ _z 5"))).isSome = true ∧
+      ((storeTrace C03.opts2 acceptAll [] (a!"data_a _x 1 save_f _y 2 save_ _z 5")).any fun | .mkFrame .. => true | _ => false) = true := by
+    decide +kernel
+  obtain ⟨ops, hops⟩ := Option.isSome_iff_exists.mp h.1
+  exact ⟨ops, hops, C03_parser_store_refines _ _ _ ops hops⟩
 
 set_option maxRecDepth 1000000 in
 /-- the hypotheses of the three theorems above hold of a real document — a scalar, a loop with two packets, the prune at the end of
